@@ -110,6 +110,13 @@ def main():
         with ProcessPoolExecutor(max_workers=a.j) as ex:
             for idx, status, t, model in ex.map(work, [(i, recs[i]["smt2"], a.timeout * 1000) for i in sel]):
                 results[idx] = (status, t, model)
+        # second chance for obligations the solver did not decide in time (machine load): alone-ish, five times the budget
+        again = [i for i in sel if results[i][0] == "undecided"]
+        if again:
+            with ProcessPoolExecutor(max_workers=max(2, a.j // 3)) as ex:
+                for idx, status, t, model in ex.map(work, [(i, recs[i]["smt2"], a.timeout * 5000) for i in again]):
+                    results[idx] = (status, results[idx][1] + t, model)
+            res["retried"] = len(again)
         for i in sel:
             o = recs[i]
             st, t, model = results[i]
